@@ -27,7 +27,7 @@ const c04L = 1 << 16
 
 func init() {
 	core.Register(c04{base{id: "C04", level: "fault_enumeration", quickB: 16, thoroughB: 32,
-		rule: "two parts, both in isolated child processes (a panic anywhere kills the child = crash witness). (1) fault enumeration, exhaustive: for each canonical session (auth ok/rejected, simple, multi-statement, extended batch, error batch, text and binary COPY ok/aborted, oversized message, Terminate, CancelRequest alone / followed by traffic, GSSENCRequest, generated C15 sessions; 15 in quick, 40 in thorough) the fault-free run's number of transport Read calls, Write calls and inbound bytes is measured, then the session is re-run with the transport failing at EVERY k-th Read (error and EOF), EVERY k-th Write (error and short write) and EVERY inbound byte offset. (1b) CancelRequest / SSLRequest / GSSENCRequest packets carrying 0-12 bytes behind the request code, as first packet, after a refused SSLRequest and inside an upgraded TLS connection. (2) input exploration: structure-aware mutation of valid streams (truncate at any offset, set any length/count field to 0,1,max-1,max,2^31,2^32-1, flip type bytes, duplicate/reorder/delete messages, splice random bytes, well-framed Bind messages whose format-code, value and result-format counts are mutually independent) on fresh connections (incl. SSLRequest and password phases), after a valid startup incl. COPY mode, and inside upgraded TLS connections; handlers call ParseParameters on every query, Parameter.Scan on every parameter and the binary COPY row reader. Oracles: process survives; after EOF/transport failure the server's own Close is observed and at most 64 further transport calls are made (spin detector); no (*Server).serve goroutine is left at batch end; a fresh probe connection is served after every 200 cases; allocation sanitizer: no object allocated by library code exceeds 8L+4MiB; no fabricated data: query texts reaching the parser are, in order, a subsequence of the texts carried by well-framed Query/Parse frames of the input, parameter values and COPY chunks are byte strings of the input. Non-trivial = fault at a position the fault-free run reaches, or a mutated stream; distinct = (session, fault kind, position) / mutation shape.",
+		rule:        "two parts, both in isolated child processes (a panic anywhere kills the child = crash witness). (1) fault enumeration, exhaustive: for each canonical session (auth ok/rejected, simple, multi-statement, extended batch, error batch, text and binary COPY ok/aborted, oversized message, Terminate, CancelRequest alone / followed by traffic, GSSENCRequest, COPY fields and Bind parameters of array / multirange type whose header announces millions of elements, generated C15 sessions; 17 in quick, 40 in thorough) the fault-free run's number of transport Read calls, Write calls and inbound bytes is measured, then the session is re-run with the transport failing at EVERY k-th Read (error and EOF), EVERY k-th Write (error and short write) and EVERY inbound byte offset. (1b) CancelRequest / SSLRequest / GSSENCRequest packets carrying 0-12 bytes behind the request code, as first packet, after a refused SSLRequest and inside an upgraded TLS connection. (2) input exploration: structure-aware mutation of valid streams (truncate at any offset, set any length/count field to 0,1,max-1,max,2^31,2^32-1, flip type bytes, duplicate/reorder/delete messages, splice random bytes, well-framed Bind messages whose format-code, value and result-format counts are mutually independent) on fresh connections (incl. SSLRequest and password phases), after a valid startup incl. COPY mode, and inside upgraded TLS connections; handlers call ParseParameters on every query, Parameter.Scan on every parameter and the binary COPY row reader. Oracles: process survives; after EOF/transport failure the server's own Close is observed and at most 64 further transport calls are made (spin detector); no (*Server).serve goroutine is left at batch end; a fresh probe connection is served after every 200 cases; allocation sanitizer: no object allocated by library code exceeds 8L+4MiB; no fabricated data: query texts reaching the parser are, in order, a subsequence of the texts carried by well-framed Query/Parse frames of the input, parameter values and COPY chunks are byte strings of the input. Non-trivial = fault at a position the fault-free run reaches, or a mutated stream; distinct = (session, fault kind, position) / mutation shape.",
 		need:        []string{"fault_runs", "read_faults", "write_faults", "byte_offset_faults", "mutated_inputs", "server_close_observed", "probe_connections_served", "leak_checks", "alloc_profile_checks", "fabrication_checks"},
 		assumptions: append([]string{"allocation bound is c*L+K (8L+4MiB): the library allocates in 4 KiB granules and its 16-bit count fields cap tables at ~2.6 MiB regardless of L; a malformed body may be answered by an ErrorResponse or by closing the connection; after a frame with a declared length below 4 the input is not judged for fabrication"}, commonAssumptions...)}})
 }
@@ -45,6 +45,9 @@ func c04sess() *hs.Sess {
 		switch {
 		case strings.HasPrefix(q, "copyb"):
 			return &hs.Prog{Stmts: []*hs.Stmt{{ID: "copyb", Cols: cols, ParseParams: true, Ops: []hs.Op{{K: "copy", Copy: &hs.CopyPlan{Format: wire.BinaryFormat, MaxReads: -1, OnErr: "propagate", Binary: true}}}}}}
+		case strings.HasPrefix(q, "copya"): // binary COPY with container-typed columns (array, multirange)
+			acols := wire.Columns{{Name: "a", Oid: oid.T_text, Width: -1}, {Name: "arr", Oid: oid.T__int4, Width: -1}, {Name: "mr", Oid: 4451, Width: -1}}
+			return &hs.Prog{Stmts: []*hs.Stmt{{ID: "copya", Cols: acols, ParseParams: true, Ops: []hs.Op{{K: "copy", Copy: &hs.CopyPlan{Format: wire.BinaryFormat, MaxReads: -1, OnErr: "propagate", Binary: true}}}}}}
 		case strings.HasPrefix(q, "copyt"):
 			return &hs.Prog{Stmts: []*hs.Stmt{{ID: "copyt", Cols: cols, ParseParams: true, Ops: []hs.Op{{K: "copy", Copy: &hs.CopyPlan{Format: wire.TextFormat, MaxReads: -1, OnErr: "propagate"}}}}}}
 		case strings.HasPrefix(q, "boom"):
@@ -66,6 +69,9 @@ func c04sess() *hs.Sess {
 			p.Scan(uint32(oid.T_int4))
 			p.Scan(uint32(oid.T_text))
 			p.Scan(uint32(oid.T_timestamptz))
+			p.Scan(uint32(oid.T__int4))
+			p.Scan(uint32(oid.T__text))
+			p.Scan(4451) // int4multirange
 			p.Scan(12345)
 		}
 	}
@@ -95,7 +101,24 @@ func c04canonical(rng *core.Rng, n int) []c04session {
 		}
 		return out
 	}
+	// container values whose own header lies about the number of elements (20 bytes announcing three
+	// million elements): nothing of that size may be allocated on their account
+	be := func(vs ...uint32) []byte {
+		var b []byte
+		for _, v := range vs {
+			b = binary.BigEndian.AppendUint32(b, v)
+		}
+		return b
+	}
+	lyingArray, lyingRanges := be(1, 0, 23, 3000000, 1), be(3000000)
+	field := func(b []byte) []byte { return append(be(uint32(len(b))), b...) }
+	arow := append(append([]byte{0, 3}, field([]byte("t"))...), append(field(lyingArray), field(lyingRanges)...)...)
+	abin := append(append(append([]byte{}, c14header...), arow...), 0xff, 0xff)
 	all := []c04session{
+		{Name: "copy-binary-lying-containers", Msgs: cat([][]byte{start, pg.Query("copya in"), pg.CopyData(abin), pg.CopyDone(), pg.Query("select 1"), pg.Terminate()})},
+		{Name: "bind-lying-containers", Msgs: cat([][]byte{start, pg.Parse("s", "select $1 $2", nil), pg.Bind("p", "s", []int16{1}, [][]byte{lyingArray, lyingRanges}, nil), pg.Execute("p", 0), pg.Sync(), pg.Terminate()})},
+		{Name: "parse-more-types-than-parameters", Msgs: cat([][]byte{start, pg.Parse("s", "select $1", []uint32{25, 0, 23, 1043, 0, 20}), pg.Describe('S', "s"), pg.Bind("p", "s", nil, [][]byte{[]byte("1")}, nil), pg.Execute("p", 0), pg.Sync(),
+			pg.Parse("", "select 1", []uint32{0, 0, 23}), pg.Describe('S', ""), pg.Sync(), pg.Terminate()})},
 		{Name: "simple", Msgs: cat([][]byte{start, pg.Query("select $1 ?"), pg.Terminate()})},
 		{Name: "auth-ok", Auth: true, Msgs: cat([][]byte{start, pg.Password("pw"), pg.Query("select 1"), pg.Terminate()})},
 		{Name: "auth-rejected", Auth: true, Msgs: cat([][]byte{start, pg.Password("nope"), pg.Query("select 1")})},
@@ -147,7 +170,7 @@ func (ch c04) Run(c *core.Ctx) {
 	envTLS := hs.Start(hs.Parse, wire.MessageBufferSize(c04L), wire.TLSConfig(hs.ServerTLS()))
 	envs := c04envs{plain: hs.Start(hs.Parse, wire.MessageBufferSize(c04L)), auth: hs.Start(hs.Parse, wire.MessageBufferSize(c04L), wire.SessionAuthStrategy(wire.ClearTextPassword(c04validator)))}
 	nb := ch.Batches(c.Tier)
-	ncanon, nmut := 15, 2500
+	ncanon, nmut := 18, 2500
 	if c.Tier == "thorough" {
 		ncanon, nmut = 40, 400000
 	}
@@ -190,7 +213,7 @@ func (ch c04) Run(c *core.Ctx) {
 		}
 		run := func(plan func(*tr.Conn), what string, pos int) bool {
 			idx++
-			if !c.Begin(si*1000000+idx) {
+			if !c.Begin(si*1000000 + idx) {
 				return true
 			}
 			conn := tr.NewConn(sessFor())
